@@ -136,6 +136,19 @@ CHECKS = {
              "Dataset accessor bound to a snapshot of efth; dd memo.",
         technique="TLA+ mechanism model refining the session spec + TLC interleavings + history replay against fresh objects",
         ref="§4 C18", engine="tlc"),
+    "C07": dict(
+        text="DaskSched.tla models block tasks on W worker threads calling the C watershed, whose work area is process-global static "
+             "state, as a four-step critical section guarded only by the GIL; TLC checks TaskOutputCorrect, BufferShapeConsistent, "
+             "AtMostOneInside for every interleaving and shape sequence and that all tasks finish (weak fairness), plus a sensitivity "
+             "configuration showing the corruption when the GIL is released. H1/H2 events recorded inside the C wrapper during real "
+             "threaded runs (two differently shaped PTM3 computations interleaved on up to 16 workers) are validated by "
+             "DaskSchedTrace.tla (no overlapping calls, contiguous buffer, realloc flag = shape change, static area = call's shape). "
+             "Chunking half: every operation x 7 chunkings (single, one element per chunk, uneven, spectral dims split) x schedulers "
+             "must succeed and equal the in-memory result.",
+        note="Trusted: TLC; hook events written while the GIL is held; machine-level data races inside the C routine are out of reach "
+             "(and impossible while the GIL is held, which the check establishes). Defect found and repaired: chunk({dim: None}).",
+        technique="TLA+ scheduler/critical-section model + TLC interleavings + H2 trace validation + chunking replay",
+        ref="§4 C07", engine="tlc"),
 }
 
 NOT_YET = "check not yet built in this round (see DESIGN.md §4 for the planned TLA+ model); not claimed"
